@@ -366,7 +366,9 @@ def run_corpus(shard):
                                      '[O-][N+](=O)c1ccc(cc1)N(=O)=O', 'CN(=O)=O.C[N+]([O-])=O', 'C[N+]#[C-].[C-]#[N+]C', 'CS(=O)C.C[S+](C)[O-]',
                                      # cyclopentadienide-type anions: plain, substituted, benzo-fused (the canonical position of the charge must be a fixed point)
                                      '[CH-]1C=CC=C1', 'C[C-]1C=CC=C1', '[CH-]1C=Cc2ccccc12', 'C1=CC2=CC=CC=C2[CH-]1', '[CH-]1c2ccccc2-c2ccccc12', '[Na+].[CH-]1C=Cc2ccccc12', '[Fe+2].[CH-]1C=Cc2ccccc12.[CH-]1C=Cc2ccccc12',
-                                     'C[C-]1C=Cc2ccccc12')]
+                                     'C[C-]1C=Cc2ccccc12',
+                                     # atoms carrying explicit AND implicit hydrogens; rules that turn a RING bond into a coordinate bond
+                                     '[H]NC', '[H]C([H])C', '[H][NH2+]C', '[H]OC([H])C', '[2H]NC', 'CN12CC(=O)OB1(c1ccccc1)OC(=O)C2', 'C1=N2CCCB2CC1', 'CN1CCO[B-]1(C)C', 'C1CC[N+]2(C1)CCC[B-]2(F)F')]
     rows += [('taut-stereo', s) for s in inputs.tautomer_stereo_family()]
     for i, (fam, s) in enumerate(rows):
         if i % nsh != k:
